@@ -8,7 +8,23 @@ module's own readers (``harness.read_objects``), never with the graph's own vali
 import hashlib
 import re
 
-from travsim.harness import read_objects, obj_key, test_class, short_class, ROOTS
+from travsim.harness import read_objects, obj_key, short_class, ROOTS
+from travsim.harness import test_class as worker_free
+
+SETS = ("normal.nongui.", "normal.gui.", "all.", "leaves.", "nonleaves.", "normal.", "minimal.")
+
+
+def setless(name):
+    """A test is the same test through whichever test set it was selected or found as a dependency."""
+    for prefix in SETS:
+        if name.startswith(prefix):
+            return name[len(prefix):]
+    return name
+
+
+def test_class(name):
+    """Worker- and selection-invariant form of a full test name."""
+    return setless(worker_free(name))
 
 _OBJ_CACHE = {}
 
@@ -224,11 +240,11 @@ def graph_signature(graph):
     for n in graph.nodes:
         if n.is_flat() or n.is_shared_root():
             continue
-        parents = sorted(p.params["name"] for p in n.setup_nodes if not p.is_flat() and not p.is_shared_root())
+        parents = sorted(setless(p.params["name"]) for p in n.setup_nodes if not p.is_flat() and not p.is_shared_root())
         keys = sorted(k for k in n.params if not k.startswith("_") and k not in ("dep",))
         digest = hashlib.sha256(repr([(k, n.params[k]) for k in keys if not k.startswith("get_location") and
                                       not re.match(r"nets_.*_(net\d+|cluster\d+\.net\d+)$", k)]).encode()).hexdigest()[:12]
-        sig.setdefault(n.params["name"], []).append((parents, digest, is_clone_source(n)))
+        sig.setdefault(setless(n.params["name"]), []).append((parents, digest, is_clone_source(n)))
     return sig
 
 
@@ -377,6 +393,7 @@ class RegisterShadow:
     def __init__(self):
         self.counts = {}
         self.registers = {}
+        self.visits = {}
 
     def install(self):
         from avocado_i2n.cartgraph import node as node_mod
@@ -399,7 +416,35 @@ class RegisterShadow:
         node_mod.EdgeRegister.register = register
         node_mod.EdgeRegister._verif_shadow = holder
 
-    def check(self, graph, phase):
+        # second model, per test instead of per register object: what every equivalent copy must report, also after
+        # copies of other workers were linked to it later (a link must not forget visits)
+        def wrap(name, owner_of, registered_of, kind):
+            real_method = getattr(node_mod.TestNode, name)
+
+            def method(self, *a, **kw):
+                result = real_method(self, *a, **kw)
+                sh = holder[0]
+                worker = a[-1] if a else kw.get("worker")
+                owner, other = owner_of(self, a, result), registered_of(self, a, result)
+                key = (owner.bridged_form, kind, other.bridged_form, worker.id)
+                sh.visits[key] = sh.visits.get(key, 0) + 1
+                return result
+
+            setattr(node_mod.TestNode, name, method)
+
+        wrap("pick_parent", lambda s, a, r: r, lambda s, a, r: s, "_picked_by_cleanup_nodes")
+        wrap("pick_child", lambda s, a, r: r, lambda s, a, r: s, "_picked_by_setup_nodes")
+        wrap("drop_parent", lambda s, a, r: s, lambda s, a, r: a[0], "_dropped_setup_nodes")
+        wrap("drop_child", lambda s, a, r: s, lambda s, a, r: a[0], "_dropped_cleanup_nodes")
+
+    def check(self, graph, phase, prop="C16"):
+        out = self._check(graph, phase)
+        if prop != "C16":
+            # C09: progress made by one worker is seen by all (only the per-test model)
+            out = [dict(v, property=prop, oracle="progress-forgotten") for v in out if v["oracle"] == "visits-lost"]
+        return out
+
+    def _check(self, graph, phase):
         out = []
         workers = list(graph.workers.values())
         for n in graph.nodes:
@@ -415,6 +460,11 @@ class RegisterShadow:
                             out.append(V("C16", "counter-mismatch", "a visit counter differs from the visits registered",
                                          phase=phase, register=reg_name, node=label(n), other=label(other), worker=w.id,
                                          got=got, want=want))
+                        want = self.visits.get((n.bridged_form, reg_name, other.bridged_form, w.id), 0)
+                        if got != want:
+                            out.append(V("C16", "visits-lost", "a test does not report the visits registered for it or for its "
+                                         "equivalent copies of other workers", phase=phase, register=reg_name, node=label(n),
+                                         other=label(other), worker=w.id, got=got, want=want))
                     want_workers = {w for (r, form, w), c in self.counts.items() if r == id(reg) and form == other.bridged_form}
                     if set(reg.get_workers(other)) != want_workers:
                         out.append(V("C16", "visitors-mismatch", "the visitors reported for a test differ from those registered",
